@@ -195,6 +195,14 @@ pub fn byte_substitutions(bases: &[&str]) -> Vec<Vec<u8>> {
 pub const SLIP_BASES_LANGID: &[&str] = &["en", "und", "en-US", "de_AT", "sr-Cyrl-RS", "ca-ES-valencia", "sl-1994", "es-419", "EN-latn-us", "abcde-Kana-001-1abc-nedis"];
 pub const SLIP_BASES_LOCALE: &[&str] = &["en-u-ca-buddhist", "en-US-t-es-ar-k0-kana", "und-x-priv", "de-u-attr-co-phonebk-t-h0-hybrid-x-a-b", "sk-Latn-SK-u-nu-latn", "en-t-k0-kana-u-ks-level1"];
 
+/// words with a meaning elsewhere (CLDR's root, POSIX locale names, grandfathered BCP 47 tags,
+/// JSON / Rust literals): none is special to this grammar, whatever a helpful fast path may think
+pub const SPECIAL_WORDS: &[&str] = &[
+    "root", "ROOT", "Root", "und", "UND", "mul", "zxx", "mis", "i-default", "x-private", "en-x-private", "*", "en-*", "C", "POSIX", "en_US.UTF-8", "en_US@euro", "true", "null", "None",
+    "default", "und-x-foo", "und-u-ca-buddhist", "zh-cmn-Hans", "sgn-BE-FR", "i-klingon", "en-GB-oed", "art-lojban", "cel-gaulish", "no-bok", "zh-min-nan", "root-x-foo", "root-Latn",
+    "en-root", "en-u-va-posix", "en-posix", "und-ZZ", "und-Zzzz", "und-Zzzz-ZZ", "en-Zzzz", "en-ZZ", "und-001", "zz", "zzz", "xx-XX", "iw", "in", "ji", "he", "id", "yi", "tl", "fil", "sh", "mo",
+];
+
 /// The language-identifier space of C02 / C13 / C19.
 pub fn langid_space(cfg: &Cfg, tag: &str, f: &ByteCheck<'_>) -> Stats {
     let mut d = Driver::new(f);
@@ -227,6 +235,7 @@ pub fn langid_space(cfg: &Cfg, tag: &str, f: &ByteCheck<'_>) -> Stats {
     all.dedup();
     d.list("G5 CLDR locale names, likelySubtags keys and values", &all);
     d.list("sanitisation slips: well-formed ids padded with whitespace / control characters / separators, or with a letter that case-folds to ASCII", &sanitisation_slips(SLIP_BASES_LANGID));
+    d.list("special words (root, POSIX names, grandfathered tags, withdrawn codes ...)", &strs(SPECIAL_WORDS));
     d.list("every single-byte substitution (256 values x every position) of 10 well-formed language ids", &byte_substitutions(SLIP_BASES_LANGID));
     d.after_neighbours("hidden state: G2 language ids, each evaluated right after every one-character neighbour (proptest)", &gen::s_langid_bytes(), cfg.seed, &format!("{tag}-nb"), n / 8, |b| b.clone());
     {
@@ -285,6 +294,7 @@ pub fn locale_space(cfg: &Cfg, tag: &str, f: &ByteCheck<'_>) -> Stats {
     d.list("G5 CLDR locale names x extension suffixes", &all);
     let bases: Vec<&str> = SLIP_BASES_LANGID.iter().chain(SLIP_BASES_LOCALE.iter()).cloned().collect();
     d.list("sanitisation slips: well-formed locales padded with whitespace / control characters / separators, or with a letter that case-folds to ASCII", &sanitisation_slips(&bases));
+    d.list("special words (root, POSIX names, grandfathered tags, withdrawn codes ...)", &strs(SPECIAL_WORDS));
     d.list("every single-byte substitution (256 values x every position) of 16 well-formed ids / locales", &byte_substitutions(&bases));
     d.after_neighbours("hidden state: G2 locales, each evaluated right after every one-character neighbour (proptest)", &gen::s_ast(), cfg.seed, &format!("{tag}-nb"), n / 8, |a| a.render());
     let nl = cfg.pick(10_000, 200_000);
